@@ -221,7 +221,7 @@ class Interp:
         raise Unsupported('name %s' % name)
 
     VOCAB = ('implies', 'iff', 'truthy', 'eq', 'gt', 'ge', 'Pow', 'Sqrt', 'Log', 'forall', 'exists', 'is_none',
-             'same', 'seq_eq', 'isinf', 'inf')
+             'same', 'seq_eq', 'isinf', 'isint', 'inf')
 
     def contract_vocab(self):
         v = {k: self.builtins[k] for k in self.VOCAB}
@@ -1525,7 +1525,7 @@ def _is_pure_bool_expr(n):
             if not (isinstance(x.func, ast.Name) and x.func.id in ('abs', 'len', 'max', 'min', 'float', 'int', 'bool',
                                                                    'isinstance', 'hasattr', 'implies', 'iff', 'eq',
                                                                    'truthy', 'Pow', 'Sqrt', 'forall', 'exists', 'seq_eq',
-                                                                   'isinf', 'gt', 'ge', 'same', 'is_none', 'Log')):
+                                                                   'isinf', 'isint', 'gt', 'ge', 'same', 'is_none', 'Log')):
                 return False
     return True
 
